@@ -174,10 +174,10 @@ static void symm_run(Ctx& c) {
         for (auto& od : ods) {
             auto it = expected.find(od.type + std::to_string(od.i) + "," + std::to_string(od.j)); if (it == expected.end()) continue;
             std::set<std::pair<int, int>> got;
-            std::unique_ptr<Pomerol::FieldOperator> fo;
-            if (od.type == "c") fo.reset(new Pomerol::AnnihilationOperator(*p.IC, *p.S, *p.H, (Pomerol::ParticleIndex)od.i));
-            else if (od.type == "cdag") fo.reset(new Pomerol::CreationOperator(*p.IC, *p.S, *p.H, (Pomerol::ParticleIndex)od.i));
-            else fo.reset(new Pomerol::QuadraticOperator(*p.IC, *p.S, *p.H, (Pomerol::ParticleIndex)od.i, (Pomerol::ParticleIndex)od.j));
+            std::shared_ptr<Pomerol::FieldOperator> fo;   // shared_ptr keeps the deleter of the dynamic type (FieldOperator has no virtual destructor)
+            if (od.type == "c") fo = std::make_shared<Pomerol::AnnihilationOperator>(*p.IC, *p.S, *p.H, (Pomerol::ParticleIndex)od.i);
+            else if (od.type == "cdag") fo = std::make_shared<Pomerol::CreationOperator>(*p.IC, *p.S, *p.H, (Pomerol::ParticleIndex)od.i);
+            else fo = std::make_shared<Pomerol::QuadraticOperator>(*p.IC, *p.S, *p.H, (Pomerol::ParticleIndex)od.i, (Pomerol::ParticleIndex)od.j);
             fo->prepare();
             const Pomerol::FieldOperator::BlocksBimap& bm = fo->getBlockMapping();
             for (Pomerol::FieldOperator::BlocksBimap::left_const_iterator q = bm.left.begin(); q != bm.left.end(); ++q) got.insert({(int)q->first, (int)q->second});
